@@ -172,6 +172,91 @@ def run(ck):
                   "fails without moving and the loop spins forever" % e.get("l"))
     ck.require(nl >= 4, "only %d scan loops with unchecked advance found" % nl)
 
+    # ---------------- R5b: every iteration of a cursor-driven loop consumes input ----------------
+    ck.rule("C03-R7", "C path automaton (loop progress)",
+            "in the parser code every way round a loop whose condition reads the cursor passes a call that consumes input (a non-const "
+            "StreamCursor member or a function handed the cursor) or leaves the loop: an iteration that neither moves the cursor nor "
+            "exits repeats forever on the same byte", 6)
+    READERS = {CUR + "current", CUR + "eol", CUR + "eof", CUR + "remaining", CUR + "next"}
+    # one named exemption: the do-while of CacheControl::parseRaw.  Its only round trip without an explicit consume needs value
+    # reasoning to be excluded (after `if (cursor.current() != ',') throw` the separator-skipping loop runs at least once because
+    # current() is ','), which this path analysis does not do.
+    R7_EXEMPT = {"Pistache::Http::Header::CacheControl::parseRaw": "do-while: progress follows from current() == ',' (value reasoning)"}
+    nlp = 0
+    for f in prog.funcs.values():
+        if f.base in R7_EXEMPT:
+            ck.note("C03-R7: %s exempt: %s" % (f.base, R7_EXEMPT[f.base]))
+            continue
+        if not in_parser(f) or f.base.startswith(CUR) or f.base.startswith("Pistache::StreamBuf") or f.base.startswith("Pistache::ArrayStreamBuf"):
+            continue
+        cursors = {p_["name"] for p_ in f.params if "StreamCursor" in p_["type"]} | {d["var"] for d in f.events("decl") if (d.get("type") or "").replace("Pistache::", "").startswith("StreamCursor") and "::" not in (d.get("type") or "").replace("Pistache::", "")[len("StreamCursor"):]}
+        if not cursors:
+            continue
+
+        def consumes(ev):
+            if ev["k"] != "call":
+                return False
+            c = ev.get("callee") or ""
+            rv = ev.get("recv") or {}
+            if rv.get("root") in cursors and c.startswith(CUR) and c not in READERS and not (ev.get("cid") or "").rstrip().endswith(" const"):
+                return True
+            return any(a.get("v") in cursors for a in ev.get("args", [])) and not c.startswith("std::")
+        for hdr, body in cfg.natural_loops(f):
+            hb = f.blocks[hdr]
+            conds = [f.blocks[b].term for b in body if f.blocks[b].term]
+            if not any(any(("c:" + r_) in (t.get("refs") or []) for r_ in READERS) for t in conds):
+                continue
+            nlp += 1
+            stuck = []
+
+            def step7(st, ev):
+                if consumes(ev) or ev["k"] in ("return", "throw") or (ev["k"] == "call" and (ev.get("callee") or "").endswith("Step::raise")):
+                    return None
+                return st
+
+            def edge7(st, blk, k, succ):
+                if succ not in body:
+                    return None     # left the loop
+                if succ == hdr:
+                    stuck.append(blk.id)
+                    return None
+                return st
+            for k, s_ in enumerate(hb.succs):
+                if s_ is not None and s_ in body and s_ != hdr:
+                    cfg.run_automaton(f, 0, step7, edge=edge7, start=s_)
+                elif s_ == hdr and not any(consumes(e) for e in hb.elems):
+                    stuck.append(hdr)
+            # the header's own elements may consume (e.g. `while (match(...))`)
+            if any(consumes(e) for e in hb.elems):
+                stuck = []
+            ck.ob("C03-R7", "%s/loop@%s" % (f.base.replace("Pistache::", ""), (hb.term or {}).get("l")), not stuck, "%s:%s" % (f.file, (hb.term or {}).get("l")), f,
+                  "every iteration consumes input or leaves" if not stuck else
+                  "an iteration of the loop at line %s can return to its head (from block %s) without moving the cursor: the same byte is examined "
+                  "forever and the worker thread never comes back" % ((hb.term or {}).get("l"), stuck[0]))
+    ck.require(nlp >= 6, "cursor-driven loops found: %d" % nlp)
+
+    # a size taken from the message is checked for its sign before it is stored (a negative size turns into a huge unsigned count)
+    cp = lib.single(prog, H + "Private::BodyStep::Chunk::parse")
+    import re as _re
+    locals_ = {d["var"] for d in cp.events("decl")}
+    stores = []
+    for a in cp.events("assign"):
+        if (a["lhs"].get("f") or "").endswith("Chunk::size") and a.get("const") is None:
+            ids = [x for x in _re.findall(r"[A-Za-z_]\w*", a["rhs"].get("t") or "") if x in locals_]
+            if ids:
+                stores.append((a, ids[-1]))
+    ck.require(stores, "assignment of the parsed chunk size not found")
+    for a, v in stores:
+        dom = cfg.dominators(cp)
+        tests = [b for b in cp.blocks.values() if b.term and b.term.get("k") in ("if", "lor") and b.term.get("cmp") == "<" and (b.term.get("lhs") or {}).get("v") == v and b.term.get("rconst") == 0
+                 and b.id in dom.get(a.block, ())]
+        d_ = [x for x in cp.events("decl") if x.get("var") == v]
+        signed = bool(d_) and (d_[0].get("icall") in ("strtol", "std::strtol", "strtoll", "std::strtoll"))
+        ck.ob("C03-R6", "Chunk::parse/size-sign-checked", bool(tests) and signed, a.loc, cp,
+              "`%s < 0` bails out before size = %s; converted with a signed conversion" % (v, v) if tests and signed else
+              "the parsed chunk size `%s` is stored without a sign check (converted by %s): a size line like -5 or 8000000000000000 becomes a "
+              "negative size and then a huge unsigned count" % (v, d_[0].get("icall") if d_ else "?"))
+
     # ---------------- R6 ----------------
     nsd = 0
     for f in prog.funcs.values():
